@@ -516,11 +516,9 @@ pub fn value_for(leaf: &Leaf, want_true: bool, variant: u8) -> DocVal {
                     }
                 }
             }
-            // string predicates also look inside arrays (quantified lists on array fields are
-            // not judged, so they get scalars)
-            let quantified = matches!(leaf.modifier, KMod::All | KMod::Of(_));
+            // string predicates also look inside arrays
             match (&s, variant % 5) {
-                (DocVal::Str(_), 4) if !quantified => DocVal::arr(vec![DocVal::s("q"), s]),
+                (DocVal::Str(_), 4) => DocVal::arr(vec![DocVal::s("q"), s]),
                 _ => s,
             }
         }
